@@ -29,6 +29,7 @@ static Args make(const JV& c, int n, Rng& rng) {
 		else if (cls("knots") == "few") { a.knots[0].resize(2 * ord[0] + 1); a.knots[0].shrink_to_fit(); }
 	}
 	if (cls("nsmooth") == "ndim") a.smooth.assign(n, 1e-3); else if (cls("nsmooth") == "other") a.smooth.assign(n == 1 ? 3 : n + 1, 1e-3); else if (cls("nsmooth") == "empty") { a.smooth.clear(); a.smooth.shrink_to_fit(); }
+	if (c.has("smoothval") && !a.smooth.empty()) { const std::string sv = cls("smoothval"); double v = sv == "zero" ? 0.0 : sv == "neg" ? -1e-3 : sv == "neginf" ? -INFINITY : sv == "nan" ? std::numeric_limits<double>::quiet_NaN() : 1e-3; a.smooth[0] = v; if (a.smooth.size() > 1 && rng.below(2)) a.smooth.back() = v; }
 	if (cls("npen") == "ndim") a.pen.assign(n, 1); else if (cls("npen") == "other") a.pen.assign(n == 1 ? 3 : n + 1, 1); else if (cls("npen") == "empty") { a.pen.clear(); a.pen.shrink_to_fit(); }
 	if (!a.pen.empty()) { if (cls("penorder") == "above") a.pen[0] = ord[0] + 1 + (uint32_t)rng.below(3); else if (cls("penorder") == "huge") a.pen[0] = 0xFFFFFFFFu; }
 	if (c.has("order") && !a.order.empty()) { if (cls("order") == "huge31") a.order[0] = 0x7FFFFFFFu; else if (cls("order") == "huge32") a.order[0] = 0xFFFFFFFFu; else if (cls("order") == "wrap") a.order[0] = 0x80000003u; }
